@@ -9,6 +9,12 @@ only once, to read the attribute names of a live r3 object = eff_protected) and 
    <out>/effects_manifest.json  per method: what it sets / stores / calls, local may-alias sets, trusted summaries
    <gprops>/C17_check.v         Lemma C17_accepts : accepts eff_table eff_protected (entry ++ rev entry) = true.
 FAIL-CLOSED: anything that cannot be classified prints `EFFECT-ERROR <file>:<line>: <why>` and exits 2.
+A Python mirror of the checker (diagnostic only, never trusted) reports WHICH statement the Coq checker rejects.
+
+The encoding differs from the sketch "one IR name per binding site, uses emitted for every site, Binds twice" in two
+places, both in the conservative direction: (1) two `Bind`s / `SetAttr`s of the SAME IR name are never emitted,
+because the checker's strong update would forget the first one (A1, A2); (2) the number of repetitions of a body is
+computed (A3) instead of being fixed to two.
 
 ABSTRACTION (flow-insensitive may-alias; every decision about PROTECTED memory is left to the verified checker)
  A1 Locals.  For every local x the front-end computes (graph reachability over all binding sites of x, loops and
@@ -1499,6 +1505,17 @@ Proof. vm_compute. reflexivity. Qed.
 
 (* every entry point alone, on a freshly constructed object *)
 Lemma C17_accepts_each : forallb (fun f => accepts eff_table eff_protected [f]) eff_entry = true.
+Proof. vm_compute. reflexivity. Qed.
+
+(* the tainted-attribute set reached after C17_sequence is closed under every single entry point: starting from it,
+   each entry point is accepted and adds no new tainted attribute.  (Together with monotonicity of the checker in its
+   tainted set -- not proved in Effects.v -- this is the inductive invariant for ALL sequences.) *)
+Definition C17_tainted : list string :=
+  match check_calls eff_table eff_protected C17_sequence with Some t => t | None => [] end.
+Lemma C17_closed :
+  forallb (fun f => match check_sequence eff_table eff_protected (List.length eff_table) C17_tainted [f] with
+                    | Some t => forallb (fun x => mem x C17_tainted) t
+                    | None => false end) eff_entry = true.
 Proof. vm_compute. reflexivity. Qed.
 
 Theorem C17_protected_unchanged : forall fuel s s',
